@@ -249,7 +249,6 @@ End Run4.
 (* ------------------------------------------------------------------ the theorem *)
 Theorem compile_correct_f4 F bld M B fuel host o :
   in_f4 M = true ->
-  handles_inj (main_names4 (main_cards M)) = true ->
   depth_ok4 (main_cards M) = true ->
   compile M default_options = COk B ->
   N.of_nat (length (Compiler.p_ids B)) < two32 ->
@@ -261,8 +260,8 @@ Theorem compile_correct_f4 F bld M B fuel host o :
     forall n, no_collision (main_names4 (main_cards M)) n ->
       option_map vm_tree (read_var_by_name (C15Link.to_vm B) (snd r) n) = RefSem.assoc n (RefSem.ob_globals o).
 Proof.
-  intros HM Hinj Hdepth HB Hlen Hsmall Href.
-  destruct (compile_f4_shape M B HM HB Hlen) as (rest & Hbc & Hnames & Tinj & Tlt).
+  intros HM Hdepth HB Hlen Hsmall Href.
+  destruct (compile_f4_shape M B HM HB Hlen) as (rest & Hbc & Hnames & Tinj & Tlt & Hinj).
   destruct (eval_program_f4 fuel M host o HM Href) as (nf & g & Hrun & Hkind & Hgs & Hglob).
   pose proof (in_f4_cards M HM) as Hcards.
   set (T := Compiler.p_ids B) in *. set (cards := main_cards M) in *. set (names := main_names4 cards) in *.
